@@ -68,6 +68,7 @@ MapRel == /\ Is("maprel")
 CliTok == /\ Is("clitok")
           /\ LET s == E.s  T == STab(dict, s, DevAstralNul)  d == CliDerive(dict, opts, s, T, E.toks, 1, 0) IN
              /\ AT("C01", "cli-tokens-are-candidates-in-chain", d.ok)
+             /\ AT("C03", "cli-tokens-are-candidates", d.ok)
              /\ (d.ok => /\ AT("C01", "cli-partition", PartitionOK(dict, opts, s, T, d.core))
                           /\ (Len(s) > 0 => AT("C02", "cli-prefix-cost+optimal",
                                                 /\ ChainOK(dict, opts, s, T, d.core, 1, 0, 0) /\ PrefixCostOK(dict, d.core)
